@@ -320,14 +320,14 @@ impl<'a, 'tcx> Cx<'a, 'tcx> {
 
     fn operand(&self, o: &Operand<'tcx>, out: &mut String) {
         match o {
-            Operand::Copy(p) => {
-                out.push_str("{\"k\":\"copy\",\"p\":");
+            Operand::Copy(p) | Operand::Move(p) => {
+                let k = if matches!(o, Operand::Copy(_)) { "copy" } else { "move" };
+                let _ = write!(out, "{{\"k\":\"{}\",\"p\":", k);
                 self.place(p, out);
-                out.push('}');
-            }
-            Operand::Move(p) => {
-                out.push_str("{\"k\":\"move\",\"p\":");
-                self.place(p, out);
+                if !p.projection.is_empty() {
+                    let pty = p.ty(&self.body.local_decls, self.tcx).ty;
+                    let _ = write!(out, ",\"ty\":{}", js(&ty_str(pty)));
+                }
                 out.push('}');
             }
             Operand::Constant(c) => self.konst(c, out),
@@ -363,26 +363,30 @@ impl<'a, 'tcx> Cx<'a, 'tcx> {
                 out.push('}');
             }
             Rvalue::BinaryOp(op, ab) => {
-                let _ = write!(out, "{{\"k\":\"bin\",\"op\":{},\"a\":", js(&format!("{:?}", op)));
+                let oty = ab.0.ty(&self.body.local_decls, self.tcx);
+                let _ = write!(out, "{{\"k\":\"bin\",\"op\":{},\"oty\":{},\"a\":", js(&format!("{:?}", op)), js(&ty_str(oty)));
                 self.operand(&ab.0, out);
                 out.push_str(",\"b\":");
                 self.operand(&ab.1, out);
                 out.push('}');
             }
             Rvalue::UnaryOp(op, a) => {
-                let _ = write!(out, "{{\"k\":\"un\",\"op\":{},\"a\":", js(&format!("{:?}", op)));
+                let oty = a.ty(&self.body.local_decls, self.tcx);
+                let _ = write!(out, "{{\"k\":\"un\",\"op\":{},\"oty\":{},\"a\":", js(&format!("{:?}", op)), js(&ty_str(oty)));
                 self.operand(a, out);
                 out.push('}');
             }
             Rvalue::Cast(ck, a, ty) => {
                 let ck_s = format!("{:?}", ck);
                 let ck_s = ck_s.split('(').next().unwrap_or("").to_string();
+                let sty = a.ty(&self.body.local_decls, self.tcx);
                 let _ = write!(
                     out,
-                    "{{\"k\":\"cast\",\"ck\":{},\"ckfull\":{},\"ty\":{},\"a\":",
+                    "{{\"k\":\"cast\",\"ck\":{},\"ckfull\":{},\"ty\":{},\"sty\":{},\"a\":",
                     js(&ck_s),
                     js(&format!("{:?}", ck)),
-                    js(&ty_str(*ty))
+                    js(&ty_str(*ty)),
+                    js(&ty_str(sty))
                 );
                 self.operand(a, out);
                 out.push('}');
@@ -444,6 +448,21 @@ impl<'a, 'tcx> Cx<'a, 'tcx> {
             Rvalue::Discriminant(p) => {
                 out.push_str("{\"k\":\"discr\",\"p\":");
                 self.place(p, out);
+                let pty = p.ty(&self.body.local_decls, self.tcx).ty;
+                let _ = write!(out, ",\"pty\":{}", js(&ty_str(pty)));
+                if let ty::Adt(adt, _) = pty.kind() {
+                    let _ = write!(out, ",\"padt\":{},\"variants\":[", js(&def_id_str(self.tcx, adt.did())));
+                    let mut first = true;
+                    for (vidx, v) in adt.variants().iter_enumerated() {
+                        if !first {
+                            out.push(',');
+                        }
+                        first = false;
+                        let d = adt.discriminant_for_variant(self.tcx, vidx).val;
+                        let _ = write!(out, "[{},{}]", d, js(&v.name.to_string()));
+                    }
+                    out.push(']');
+                }
                 out.push('}');
             }
             Rvalue::Repeat(a, n) => {
@@ -466,6 +485,13 @@ impl<'a, 'tcx> Cx<'a, 'tcx> {
                 self.place(p, out);
                 out.push_str(",\"rv\":");
                 self.rvalue(rv, out);
+                if !p.projection.is_empty() {
+                    let pty = p.ty(&self.body.local_decls, self.tcx).ty;
+                    let _ = write!(out, ",\"pty\":{}", js(&ty_str(pty)));
+                    if let ty::Adt(adt, _) = pty.kind() {
+                        let _ = write!(out, ",\"padt\":{}", js(&def_id_str(self.tcx, adt.did())));
+                    }
+                }
                 out.push(',');
                 loc_json(self.tcx, s.source_info.span, out);
                 out.push('}');
@@ -562,8 +588,19 @@ impl<'a, 'tcx> Cx<'a, 'tcx> {
                     first = false;
                     self.operand(&a.node, out);
                 }
+                out.push_str("],\"atys\":[");
+                let mut first = true;
+                for a in args.iter() {
+                    if !first {
+                        out.push(',');
+                    }
+                    first = false;
+                    out.push_str(&js(&ty_str(a.node.ty(&self.body.local_decls, self.tcx))));
+                }
                 out.push_str("],\"dest\":");
                 self.place(destination, out);
+                let dty = destination.ty(&self.body.local_decls, self.tcx).ty;
+                let _ = write!(out, ",\"dty\":{}", js(&ty_str(dty)));
                 let _ = write!(
                     out,
                     ",\"t\":{},",
